@@ -254,7 +254,7 @@ pub fn check_builder_state(ctx: &mut Ctx, st: &BuilderState) -> Result<(), Viola
     ctx.eval();
     ctx.class("builder:unvalidated-state");
     let case = || json!({"builder": st.to_json()});
-    ctx.current = Some(case());
+    ctx.set_case(case());
     let bb = st.build();
     let text = format!("{}", bb);
     if st.ep_file.is_some() || st.stm == Col::B {
